@@ -224,6 +224,18 @@ def quick_plans(rng, thorough):
             add(sch, stm=sm, str=sm, layout="classic", n_overrides=0, em=True, crypt_family=True, extra_cf=[[b"Other".hex(), xm]],
                 force_named=[["dct0", "arr", ident], ["dct1", "arr", b"Other".hex()], ["plain0", "dict", ident], ["plain1", "dict", b"Other".hex()],
                              ["plain2", "arr", ident]])
+        # extension (method selection for every dictionary): /EFF naming another filter than /StmF (readers decrypt attachments and
+        # every other stream per /StmF; --show-encryption's file method follows /EFF), /CF entries that are not dictionaries or have an
+        # unknown /CFM and that nothing refers to, /StmF absent with /EFF present, a one-element /Filter array with ONE /DecodeParms
+        # dictionary, and crypt filter entries in a V < 4 dictionary (meaningless there: everything is RC4)
+        sc, tc = b"StmCF".hex(), b"StrCF".hex()
+        add("V4R4", stm="2", str="1", stm_name=sc, str_name=tc, eff=tc, junk_cf=True, n_overrides=0, layout="classic",
+            force_named=[["plain0", "arr1-dict", tc], ["plain1", "arr1-dict", ident]])
+        add("V5R5", stm="3", str="0", stm_name=sc, str_name=tc, identity_style="absent", eff=ident, junk_cf=True, n_overrides=0,
+            force_named=[["plain0", "arr1-dict", ident], ["plain1", "arr1-dict", sc]])
+        add("V4R4", stm="0", str="2", stm_name=sc, str_name=tc, identity_style="absent", eff=tc, junk_cf=True, n_overrides=1)
+        add("V2R3", keylen=16, lt4_junk=True)
+        add("V1R2", lt4_junk=True, layout="classic")
         # signature dictionaries: /Contents is never encrypted; with and without the optional /Type /Sig
         add("V4R4", stm="2", str="2", sig="typed", layout="classic")
         add("V5R5", stm="3", str="3", sig="typed", layout="classic")
@@ -336,6 +348,8 @@ class EncOut:
         if isinstance(e.get(b"CF"), dict):
             for k, v in e[b"CF"].items():
                 m = v.get(b"CFM") if isinstance(v, dict) else None
+                if not isinstance(v, dict) or (isinstance(m, Name) and m.b not in METHOD_OF_CFM):
+                    continue        # not a crypt filter the standard defines (copied from an input that had such an unreferenced entry)
                 cf[k] = METHOD_OF_CFM.get(m.b if isinstance(m, Name) else b"None", "?")
         stmf = e[b"StmF"].b if isinstance(e.get(b"StmF"), Name) else gen.IDENTITY
         strf = e[b"StrF"].b if isinstance(e.get(b"StrF"), Name) else gen.IDENTITY
@@ -613,6 +627,9 @@ def f12_class(ef, num):
 def file_signatures(ef):
     """signatures of the known-finding input classes a file belongs to (for observations that cannot be attributed to one leaf)"""
     sigs = []
+    if ef.V < 4 and ef.plan.get("lt4_junk") and ef.rootmeta is not None:
+        # writer side (preservation / --copy-encryption): /EncryptMetadata false copied from a V < 4 dictionary (finding F13)
+        sigs.append(SIG_PREFIX + "preserve-encryptmetadata-below-v4")
     if any(f11_class(ef, l) for l in ef.leaves):
         sigs.append(SIG_PREFIX + "key-cache-ignores-aes")
     if ef.plan.get("sig") == "untyped" and any(l["kind"] == "s:g0" for l in ef.leaves):
@@ -667,7 +684,51 @@ def part_files(chk, run, drv, perms_spec):
         plans = [p for p in plans if p["idx"] in keep]
     efs = build_files(chk, plans, run, work)
     judge_files(chk, efs, run, drv, work, rng, perms_spec)
+    part_dq(chk, efs, run)
     return efs
+
+
+def part_dq(chk, efs, run):
+    """extension: the ISO rule for ARBITRARY encryption dictionaries (extracted Crypto/DqIso.v) and the executable class of the recorded
+    findings (Crypto/DqReader.dq_in_finding_class) on the dictionary each generated file really carries and on every leaf of it:
+    the rule must give the method the reference encryptor used (IsoEnc.v, a different formulation) and the class must be exactly the
+    leaves whose input class has a recorded signature (F1 crypt-filter-defaults, F2 cfm-none-explicit, F10 sig-contents-without-type);
+    together with files-leaves (implementation = plaintext on every leaf without a signature) this is the checked form of
+    dq_method_selection_*: outside the class the implementation undoes the method the standard prescribes."""
+    lines, meta = [], []
+    for ef in efs:
+        rd = gen.rdict_tokens(ef.encdict)
+        for l in ef.leaves:
+            lines.append("dqcase " + " ".join(rd + [l["kind"]]))
+            meta.append((ef, l))
+    out = run(lines, shards=4)
+    bad, classes = [], set()
+    F = ("crypt-filter-defaults", "cfm-none-explicit", "sig-contents-without-type")
+    for (ef, l), o in zip(meta, out):
+        f = o.split()
+        if len(f) != 3:
+            bad.append((describe(ef), leaf_key(l), l["kind"], "runner: " + o[:80], ""))
+            continue
+        sig = leaf_signature(ef, l)
+        in_sig = any(x in sig for x in F)
+        e = ef.encdict
+        cfd = e.get(b"CF") if isinstance(e.get(b"CF"), dict) else {}
+        classes.add((ef.V, f[0], f[1], f[2], "EFF" if b"EFF" in e else "", "StmF" if b"StmF" in e else "", "StrF" if b"StrF" in e else "",
+                     "cf-notdict" if any(not isinstance(v, dict) for v in cfd.values()) else "",
+                     "cf-unknown" if any(isinstance(v, dict) and v.get(b"CFM") == gen.Name(b"Foo") for v in cfd.values()) else "",
+                     "cf-none-explicit" if any(isinstance(v, dict) and v.get(b"CFM") == gen.Name(b"None") for v in cfd.values()) else "",
+                     "cf-no-cfm" if any(isinstance(v, dict) and b"CFM" not in v for v in cfd.values()) else "",
+                     leaf_class(ef, l)))
+        if f[0] != l.get("method"):
+            bad.append((describe(ef), leaf_key(l), l["kind"], "ISO rule on the written dictionary: method " + f[0],
+                        "reference encryptor used method " + str(l.get("method"))))
+        elif (f[1] == "1") != in_sig:
+            bad.append((describe(ef), leaf_key(l), l["kind"], "dq_in_finding_class = " + f[1], "recorded signature of the leaf: %r" % sig))
+    if bad:
+        t = bad[0]
+        chk.violation({"kind": "correspondence-broken", "correspondence": "corr:C06:dq-rule", "differing_cases": len(bad), "first_case": t[0], "leaf": t[1],
+                       "leaf_kind": t[2], "specification": t[3], "model": t[4]}, no_input=True)
+    chk.count("dq-rule", len(lines), classes, samples=[{"case": lines[0][:200], "result (iso method, in finding class, iso file method)": out[0]}] if lines else [])
 
 
 def judge_files(chk, efs, run, drv, work, rng, perms_spec=None, cli=True):
